@@ -251,6 +251,9 @@ def run(ck, facts):
         for var, expr, sub in blocks:
             v = var.strip()
             for kind, h in sub:
+                if kind == "stmt" and re.search(r"\bloop\.(index0?|revindex0?)\b", h) and re.search(r"discriminant", h):
+                    ck.bad("R1", rel + "/position-compared", "the variant loop decides what to print by comparing the stored discriminant with the loop position (`%s`): a value left out because it "
+                           "equals the position is re-derived by the target language from the PREVIOUS enumerator, not from the position" % h[:70], "tool/templates/" + rel)
                 if kind != "hole":
                     continue
                 if re.search(r"\bloop\.(index0?|revindex0?)\b", h):
@@ -263,10 +266,18 @@ def run(ck, facts):
     check_loop("cpp/enum_decl.h.jinja", r"\bty\.variants\b", 1)
     check_loop("js/enum.js.jinja", r"\benum_def\.variants\b", 4)
     check_loop("dart/enum.dart.jinja", r"\bty\.variants\b", 1)
+    # JS: a discriminant used as an object-literal key is a computed key (`[d]:`), since discriminants may be negative and `{ -3: x }` does not parse
+    fl_js = tmpl.strip_stmts(tmpl.flat_file("js/enum.js.jinja", resolve_includes=False))
+    keys_js = re.findall(r"(\[?)\s*⟦\s*\w+\.discriminant\s*⟧\s*(\]?)\s*:(?!:)", fl_js)
+    ck.expect(len(keys_js) >= 1 and all(a_ == "[" and b_ == "]" for a_, b_ in keys_js), "R1", "js/enum.js.jinja/computed-discriminant-keys", "%d keys" % len(keys_js),
+              "a discriminant is printed as a bare object-literal key (%s): `{ -3: .. }` is a syntax error, so the module of an enum with a negative discriminant cannot be loaded" % keys_js, "tool/templates/js/enum.js.jinja")
     # value assignment shape in C / C++: `NAME = {{v.discriminant}},`
     for rel in ("c/enum.h.jinja", "cpp/enum_decl.h.jinja"):
         fl = tmpl.flat_file(rel, resolve_includes=False)
         ck.expect(re.search(r"⟧\s*=\s*⟦\s*\w+\.discriminant\s*⟧\s*,", fl) is not None, "R1", rel + "/enumerator=value", "", "enumerators are not declared as `NAME = <discriminant>,`", "tool/templates/" + rel)
+        # and no enumerator is declared without its value (C / C++ would number it previous + 1)
+        bare = re.findall(r"⟦[^⟧]*(?:fmt_enum_variant|\.name)[^⟧]*⟧\s*,", tmpl.strip_stmts(fl))
+        ck.expect(not bare, "R1", rel + "/no-bare-enumerator", "", "an enumerator is declared without `= <discriminant>` (%s): C/C++ give it the previous enumerator's value + 1, not the Rust discriminant" % (bare[0][:50] if bare else ""), "tool/templates/" + rel)
     # js: positional lookup only under is_contiguous
     toks = tmpl.load("js/enum.js.jinja", resolve_includes=False)
     depth_flag = []
